@@ -60,6 +60,14 @@ typedef void (*thread_fn)(int tid, void *arg);
 // run nthreads simulated threads to completion under the scheduler
 void run_concurrent(const Config &cfg, thread_fn fn, void *arg, Result &out);
 
+// allocation fault attached to the next library call of this thread: its k-th malloc/calloc returns NULL (0 = none)
+void arm_alloc_fault(int k);
+bool alloc_fault_fired();
+// run fn(tid, arg) on the calling (main) thread in sequential mode; returns false if the library aborted / asserted
+bool run_sequential(thread_fn fn, int tid, void *arg);
+typedef void (*abort_hook)(int tid, void *arg);
+void set_abort_hook(abort_hook h);          // called on the aborting thread after it unwound out of the library
+
 // called by thread programs around library calls
 void enter_sut();
 void leave_sut();
